@@ -44,6 +44,10 @@ inductive Act where
   | del (ik raw : Bytes)
   /-- `compactCurrent`: compare-and-delete of `(ik, v)` for raw key `raw` -/
   | delcur (ik v raw : Bytes)
+  /-- `expireEvent` (since /repo 74218cc): ONE write batch for the expired Event `raw` — the compare-and-delete of
+  its revision record `(ik, v)` (the iterator stands on it) and a plain delete of every key in `vers` (the versions
+  of `raw` the pass's snapshot shows). Executed by `runExpire` / `runAct`, all or nothing. -/
+  | expire (ik v : Bytes) (vers : List Bytes) (raw : Bytes)
   | panic
   deriving Repr, DecidableEq
 
@@ -66,42 +70,58 @@ def isEventKey (c : WCfg) (k : Bytes) : Bool :=
 def emitPrev (p : Prev) : List Act :=
   if p.rev > 0 && !isTomb p.val then [.emit p.key p.val p.rev] else []
 
-/-- What `compactIfExpired` (scanner.go:595-630) decides for the record under the iterator, given the event key
-the worker remembers in `liveEventRawKey` (`live`; Go starts with `nil`, and `bytes.Equal(x, nil)` holds exactly
-for the empty `x`, so `[]` is `nil`). -/
+/-- What `compactIfExpired` (scanner.go) decides for the record under the iterator, given the event key the worker
+remembers in `liveEventRawKey` (`live`) and the one in `goneEventRawKey` (`gone`; Go starts both with `nil`, and
+`bytes.Equal(x, nil)` holds exactly for the empty `x`, so `[]` is `nil`). -/
 inductive Expiry where
-  /-- `return false, nil` without touching anything: the engine has native ttl or `timeoutRevision == 0` (:599-602),
-  not a key under `eventsPrefix` (:603), a version above the timeout revision, or a version of the remembered live
-  event key (:622: `revision <= w.timeoutRevision && !bytes.Equal(rawKey, w.liveEventRawKey)` is false) -/
+  /-- `return false, nil` without touching anything: the engine has native ttl or `timeoutRevision == 0`,
+  not a key under `eventsPrefix`, a version above the timeout revision, or a version of the remembered live
+  event key (`revision <= w.timeoutRevision && !bytes.Equal(rawKey, w.liveEventRawKey)` is false) -/
   | no
-  /-- revision record whose revision is ABOVE the timeout revision (:619-621): the newest change of this Event is
+  /-- revision record whose revision is ABOVE the timeout revision: the newest change of this Event is
   younger than the ttl — `w.liveEventRawKey = rawKey`, then `return false, nil` -/
   | noLive
-  /-- revision record at or below the timeout revision (:609-618): `compactCurrent`; `w.liveEventRawKey = rawKey` when
-  it returns an error; `return true, err` (the worker `continue`s) -/
+  /-- revision record at or below the timeout revision: `expireEvent` (one write batch: compare-and-delete of the
+  record + deletes of the versions at the snapshot); `w.liveEventRawKey = rawKey` when it returns an error,
+  `w.goneEventRawKey = rawKey` when it does not; `return true, err` (the worker `continue`s) -/
   | idx
-  /-- version at or below the timeout revision of a key that is not the remembered one (:622-625): `compactKey`;
-  `return true, …` -/
+  /-- a version (any revision) of the event key in `goneEventRawKey`: removed together with its revision record a
+  moment ago, the snapshot iterated on still shows it — `return true, nil`, no call -/
+  | gone
+  /-- version at or below the timeout revision of a key that is neither the gone nor the remembered live one:
+  `compactKey`; `return true, …` -/
   | ver
-  /-- `value[:8]` of a revision record shorter than 8 bytes (:608) -/
+  /-- `value[:8]` of a revision record shorter than 8 bytes -/
   | panic
   deriving Repr, DecidableEq
 
-def expiry (c : WCfg) (live : Bytes) (r : Rec) : Expiry :=
+def expiry (c : WCfg) (live gone : Bytes) (r : Rec) : Expiry :=
   if c.supportTTL || c.timeout == 0 then .no
   else if isEventKey c r.key then
     if r.rev == 0 then
       if r.val.length < 8 then .panic
       else if fromBE (r.val.take 8) ≤ c.timeout then .idx else .noLive
+    else if r.key == gone then .gone
     else if r.rev ≤ c.timeout && r.key != live then .ver else .no
   else .no
 
-/-- `compactIfExpired` as the worker loop sees it: `some acts` = expired (the delete call it makes; the worker
-`continue`s), `none` = not expired (the ordinary rules of the loop body apply to the record). -/
-def expireStep (c : WCfg) (live : Bytes) (r : Rec) : Option (List Act) :=
-  match expiry c live r with
+/-- What `expireEvent` collects for the raw key `k`: the keys an iterator over
+`[EncodeObjectKey(k, 1), EncodeObjectKey(k, MaxUint64))` yields at the pass's snapshot (`w.tso`). `snap` is the decoded
+snapshot the worker iterates over; over the documented alphabet (no byte of a raw key at or below the split byte) the
+internal keys in that range are exactly the records of raw key `k` with a revision `1 ≤ n < 2^64 - 1`
+(`KB.encode_cmp`). (Outside the alphabet a record of ANOTHER raw key `k$…` can lie in that byte range: not modelled,
+like everything else outside C10's alphabet.) -/
+def versionsOf (k : Bytes) (snap : List Rec) : List Bytes :=
+  (snap.filter (fun w => w.key == k && w.rev != 0 && decide (w.rev < 2 ^ 64 - 1))).map (·.ik)
+
+/-- `compactIfExpired` as the worker loop sees it: `some acts` = expired (the call it makes — none for a version of
+the gone key; the worker `continue`s), `none` = not expired (the ordinary rules of the loop body apply to the
+record). -/
+def expireStep (c : WCfg) (live gone : Bytes) (snap : List Rec) (r : Rec) : Option (List Act) :=
+  match expiry c live gone r with
   | .panic => some [.panic]
-  | .idx => some [.delcur r.ik r.val r.key]
+  | .idx => some [.expire r.ik r.val (versionsOf r.key snap) r.key]
+  | .gone => some []
   | .ver => some [.del r.ik r.key]
   | .noLive => none
   | .no => none
@@ -151,87 +171,190 @@ inductive DelOutcome where
                 -- not remembered by `compactCurrent` (compare-and-delete: the key was written again)
   deriving Repr, DecidableEq
 
+/-- one engine call of the compaction pass, as the ghost delete-call log records it -/
+inductive DelCall where
+  /-- `store.Del(ik)` -/
+  | del (ik : Bytes)
+  /-- `store.DelCurrent(iter)` with the iterator on `ik` -/
+  | delcur (ik : Bytes)
+  /-- the `Commit` of the expiry batch: compare-and-delete of the revision record `ik` + `n` version deletes -/
+  | expire (ik : Bytes) (n : Nat)
+  deriving Repr, DecidableEq
+
 structure CompState where
   store : Store
   lastFailed : Bytes := []
   calls : Nat := 0
-  /-- ghost: the delete calls made so far, in order (`true` = compare-and-delete) -/
-  trace : List (Bool × Bytes) := []
+  /-- ghost: the engine calls made so far, in order -/
+  trace : List DelCall := []
   deriving Repr
 
-/-- Execute the delete actions in order against the live store. `mask i` is the outcome the
-engine gives to the `i`-th delete *call* (skipped actions make no call). A compare-and-delete whose
+/-- Execute the single-record delete actions in order against the live store. `mask i` is the outcome the
+engine gives to the `i`-th *call* of the pass (skipped actions make no call). A compare-and-delete whose
 value no longer matches is a CAS failure whatever the mask says. A failed plain delete (`compactKey`)
 always remembers its raw key; a compare-and-delete (`compactCurrent`, through `updateSkippedRawKey`)
-does so only for errors outside the failed-condition class. -/
+does so only for errors outside the failed-condition class. (The expiry batch `Act.expire` is executed by
+`runExpire`; `runAct` is both.) -/
 def runDelete (mask : Nat → DelOutcome) (st : CompState) : Act → CompState
   | .del ik raw =>
     if st.lastFailed.length > 0 && st.lastFailed == raw then st
     else match mask st.calls with
-      | .ok => { st with store := st.store.erase ik, calls := st.calls + 1, trace := st.trace ++ [(false, ik)] }
-      | .fail => { st with lastFailed := raw, calls := st.calls + 1, trace := st.trace ++ [(false, ik)] }
+      | .ok => { st with store := st.store.erase ik, calls := st.calls + 1, trace := st.trace ++ [.del ik] }
+      | .fail => { st with lastFailed := raw, calls := st.calls + 1, trace := st.trace ++ [.del ik] }
       -- `compactKey` remembers the raw key on ANY error, the failed-condition class included
-      | .failCas => { st with lastFailed := raw, calls := st.calls + 1, trace := st.trace ++ [(false, ik)] }
+      | .failCas => { st with lastFailed := raw, calls := st.calls + 1, trace := st.trace ++ [.del ik] }
   | .delcur ik v raw =>
     if st.lastFailed.length > 0 && st.lastFailed == raw then st
     else match mask st.calls with
-      | .ok => if st.store.get ik = some v then { st with store := st.store.erase ik, calls := st.calls + 1, trace := st.trace ++ [(true, ik)] }
-               else { st with calls := st.calls + 1, trace := st.trace ++ [(true, ik)] }
-      | .fail => { st with lastFailed := raw, calls := st.calls + 1, trace := st.trace ++ [(true, ik)] }
-      | .failCas => { st with calls := st.calls + 1, trace := st.trace ++ [(true, ik)] }
+      | .ok => if st.store.get ik = some v then { st with store := st.store.erase ik, calls := st.calls + 1, trace := st.trace ++ [.delcur ik] }
+               else { st with calls := st.calls + 1, trace := st.trace ++ [.delcur ik] }
+      | .fail => { st with lastFailed := raw, calls := st.calls + 1, trace := st.trace ++ [.delcur ik] }
+      | .failCas => { st with calls := st.calls + 1, trace := st.trace ++ [.delcur ik] }
   | _ => st
 
 def runDeletes (mask : Nat → DelOutcome) (st : CompState) (acts : List Act) : CompState :=
   acts.foldl (runDelete mask) st
 
+/-! ### the expiry batch (`worker.expireEvent`, /repo 74218cc) -/
+
+/-- the write batch `expireEvent` builds: `batch.DelCurrent(iter)` on the revision record, then `batch.Del(key)` for
+every version collected at the snapshot -/
+def expireOps (ik v : Bytes) (vers : List Bytes) : List BOp := .delcur ik v :: vers.map .del
+
+/-- `expireEvent` for the raw key `raw`: nothing at all when `raw` is the skipped key (`isSkippedRawKey`); otherwise
+ONE engine call, `batch.Commit` (`KB.commit`: all or nothing) — `mask` says what the engine answers to it: `.fail` = a
+plain error, nothing applied, the raw key is remembered in `lastCompactFailedRawKey` (`updateSkippedRawKey`);
+`.failCas` = an error of the failed-condition class (a write conflict), nothing applied, not remembered; `.ok` = the
+batch is evaluated: when the revision record is no longer `(ik, v)` the compare-and-delete's condition fails — a
+failed-condition error, nothing applied — and otherwise the record and all of `vers` go in one step. -/
+def runExpire (mask : Nat → DelOutcome) (st : CompState) (ik v : Bytes) (vers : List Bytes) (raw : Bytes) : CompState :=
+  if st.lastFailed.length > 0 && st.lastFailed == raw then st
+  else match mask st.calls with
+    | .ok =>
+      match commit {} st.store (expireOps ik v vers) with
+      | .ok s' => { st with store := s', calls := st.calls + 1, trace := st.trace ++ [.expire ik vers.length] }
+      | .error _ => { st with calls := st.calls + 1, trace := st.trace ++ [.expire ik vers.length] }
+    | .fail => { st with lastFailed := raw, calls := st.calls + 1, trace := st.trace ++ [.expire ik vers.length] }
+    | .failCas => { st with calls := st.calls + 1, trace := st.trace ++ [.expire ik vers.length] }
+
+/-- `expireEvent` returns an error: it made the call (the key is not the skipped one) and the call did not remove
+the Event — the engine says so (`mask`), or the revision record under the iterator changed. -/
+def expireErr (mask : Nat → DelOutcome) (st : CompState) (ik v raw : Bytes) : Bool :=
+  !(st.lastFailed.length > 0 && st.lastFailed == raw) &&
+    (mask st.calls != .ok || st.store.get ik != some v)
+
+/-- execution of any action of the pass: the expiry batch, or a single-record delete -/
+def runAct (mask : Nat → DelOutcome) (st : CompState) : Act → CompState
+  | .expire ik v vers raw => runExpire mask st ik v vers raw
+  | a => runDelete mask st a
+
+def runActs (mask : Nat → DelOutcome) (st : CompState) (acts : List Act) : CompState :=
+  acts.foldl (runAct mask) st
+
 /-! ### the worker loop with expiry (engines without native ttl: the ttl pass rides on the compaction)
 
 With a timeout revision the actions are no longer a function of the records alone: whether the versions of an
-expired Event expire depends on the OUTCOME of the compare-and-delete of its revision record
-(`liveEventRawKey`), so the loop is modelled as it runs — record by record, every delete call executed against the
-live store before the next record is looked at. -/
+expired Event are skipped (the Event went as a whole) or left to the ordinary rules depends on the OUTCOME of the
+expiry batch (`goneEventRawKey` / `liveEventRawKey`), so the loop is modelled as it runs — record by record, every
+call executed against the live store before the next record is looked at. -/
 
-/-- `compactCurrent` returns an error: it made a call (the key is not the skipped one, `isSkippedRawKey` answers
-`nil`) and the call failed — the engine says so (`mask`), or the record under the iterator changed. -/
+/-- The worker loop (`worker.run`, scanner.go) with its side effects: `snap` = the decoded records of the snapshot
+the worker iterates over (the versions `expireEvent` collects come from it), `p` = `prevUserKey/Revision/Value`,
+`live` = `w.liveEventRawKey`, `gone` = `w.goneEventRawKey`, `st` = live store, `w.lastCompactFailedRawKey`, number of
+calls made. Answers the actions performed, in order, and the state after the last record. -/
+def passLoop (c : WCfg) (mask : Nat → DelOutcome) (snap : List Rec) :
+    Prev → Bytes → Bytes → CompState → List Rec → List Act × CompState
+  | p, _, _, st, [] => (emitPrev p, st)
+  | p, live, gone, st, r :: rs =>
+    match expiry c live gone r with
+    | .panic =>
+      let res := passLoop c mask snap p live gone st rs
+      (.panic :: res.1, res.2)
+    | .idx =>
+      -- `err = w.expireEvent(iter, rawKey, rev); if err != nil { w.liveEventRawKey = rawKey } else
+      -- { w.goneEventRawKey = rawKey }; return true, err`
+      let a := Act.expire r.ik r.val (versionsOf r.key snap) r.key
+      let err := expireErr mask st r.ik r.val r.key
+      let res := passLoop c mask snap p (if err then r.key else live) (if err then gone else r.key)
+        (runAct mask st a) rs
+      (a :: res.1, res.2)
+    | .gone =>
+      -- `return true, nil`: the worker `continue`s, no call, `prev` unchanged
+      passLoop c mask snap p live gone st rs
+    | .ver =>
+      -- `return true, w.compactKey(iter.Key(), rawKey, revision)`
+      let res := passLoop c mask snap p live gone (runDelete mask st (.del r.ik r.key)) rs
+      (.del r.ik r.key :: res.1, res.2)
+    | .noLive =>
+      -- `w.liveEventRawKey = rawKey`, then the ordinary rules
+      let s := workerStep c p r
+      let res := passLoop c mask snap s.2 r.key gone (runDeletes mask st s.1) rs
+      (s.1 ++ res.1, res.2)
+    | .no =>
+      let s := workerStep c p r
+      let res := passLoop c mask snap s.2 live gone (runDeletes mask st s.1) rs
+      (s.1 ++ res.1, res.2)
+
+/-! ### the ttl pass as it was between 8442634 and "fix: the ttl pass removes an expired Event in one write batch"
+(74218cc), kept for the refutation `KB.C07Atomic.old_pass_interrupted_leaves_orphan_versions`: the revision record of
+an expired Event was compare-and-deleted on its own (`compactCurrent`) and each version plain-deleted one loop
+iteration later each (`compactKey`) — separate engine calls, any of which can fail or never happen. -/
+
+inductive ExpiryOld where
+  | no | noLive | idx | ver | panic
+  deriving Repr, DecidableEq
+
+def expiryOld (c : WCfg) (live : Bytes) (r : Rec) : ExpiryOld :=
+  if c.supportTTL || c.timeout == 0 then .no
+  else if isEventKey c r.key then
+    if r.rev == 0 then
+      if r.val.length < 8 then .panic
+      else if fromBE (r.val.take 8) ≤ c.timeout then .idx else .noLive
+    else if r.rev ≤ c.timeout && r.key != live then .ver else .no
+  else .no
+
+/-- `compactCurrent` returned an error (the pre-74218cc pass remembered the key as live then) -/
 def delcurErr (mask : Nat → DelOutcome) (st : CompState) (ik v raw : Bytes) : Bool :=
   !(st.lastFailed.length > 0 && st.lastFailed == raw) &&
     (mask st.calls != .ok || st.store.get ik != some v)
 
-/-- The worker loop (`worker.run`, scanner.go:415-542) with its side effects: `p` = `prevUserKey/Revision/Value`,
-`live` = `w.liveEventRawKey`, `st` = live store, `w.lastCompactFailedRawKey`, number of delete calls made.
-Answers the actions performed, in order, and the state after the last record. -/
-def passLoop (c : WCfg) (mask : Nat → DelOutcome) : Prev → Bytes → CompState → List Rec → List Act × CompState
+def passLoopOld (c : WCfg) (mask : Nat → DelOutcome) : Prev → Bytes → CompState → List Rec → List Act × CompState
   | p, _, st, [] => (emitPrev p, st)
   | p, live, st, r :: rs =>
-    match expiry c live r with
+    match expiryOld c live r with
     | .panic =>
-      let res := passLoop c mask p live st rs
+      let res := passLoopOld c mask p live st rs
       (.panic :: res.1, res.2)
     | .idx =>
-      -- :611-617 `err = w.compactCurrent(iter, rawKey, rev); if err != nil { w.liveEventRawKey = rawKey }; return true, err`
       let live' := if delcurErr mask st r.ik r.val r.key then r.key else live
-      let res := passLoop c mask p live' (runDelete mask st (.delcur r.ik r.val r.key)) rs
+      let res := passLoopOld c mask p live' (runDelete mask st (.delcur r.ik r.val r.key)) rs
       (.delcur r.ik r.val r.key :: res.1, res.2)
     | .ver =>
-      -- :622-625 `return true, w.compactKey(iter.Key(), rawKey, revision)`
-      let res := passLoop c mask p live (runDelete mask st (.del r.ik r.key)) rs
+      let res := passLoopOld c mask p live (runDelete mask st (.del r.ik r.key)) rs
       (.del r.ik r.key :: res.1, res.2)
     | .noLive =>
-      -- :621 `w.liveEventRawKey = rawKey`, then the ordinary rules
       let s := workerStep c p r
-      let res := passLoop c mask s.2 r.key (runDeletes mask st s.1) rs
+      let res := passLoopOld c mask s.2 r.key (runDeletes mask st s.1) rs
       (s.1 ++ res.1, res.2)
     | .no =>
       let s := workerStep c p r
-      let res := passLoop c mask s.2 live (runDeletes mask st s.1) rs
+      let res := passLoopOld c mask s.2 live (runDeletes mask st s.1) rs
       (s.1 ++ res.1, res.2)
 
-/-- One worker over the records of its partition (`newWorker`: nothing remembered yet). -/
+def passRunOld (c : WCfg) (mask : Nat → DelOutcome) (st : CompState) (recs : List Rec) : List Act × CompState :=
+  passLoopOld c mask {} [] { st with lastFailed := [] } recs
+
+/-- One worker over the records of its partition (`newWorker`: nothing remembered yet); the records are its
+snapshot. Which loop the source has is a regenerated fact (`Generated.expiryCallShape`, kbextract: "batch" =
+`compactIfExpired` calls `expireEvent`, which makes one `BeginBatchWrite … DelCurrent … Del* … Commit` and no single
+delete call): if the code goes back to the per-record calls the model follows it — and the theorems of
+`KB.Props.C07Expire` / `C07Atomic`, which are about the batch, stop checking. -/
 def passRun (c : WCfg) (mask : Nat → DelOutcome) (st : CompState) (recs : List Rec) : List Act × CompState :=
-  passLoop c mask {} [] { st with lastFailed := [] } recs
+  if expiryCallShape == "batch" then passLoop c mask recs {} [] [] { st with lastFailed := [] } recs
+  else passLoopOld c mask {} [] { st with lastFailed := [] } recs
 
 /-! ### the ttl pass as it was before "fix: the ttl pass spares the versions of an Event whose revision record is
-not expired" (kept for the refutation `KB.C07Expire.old_ttl_pass_removes_live_version`): every record of an event key
+not expired" (8442634; kept for the refutation `KB.C07Expire.old_ttl_pass_removes_live_version`): every record of an event key
 at or below the timeout revision expired on its own, whatever the key's revision record said and whatever became of
 the compare-and-delete of that record; the actions were a function of the records. -/
 
